@@ -616,6 +616,11 @@ def triple_ops(spec: dict) -> list[dict]:
         {"op": "make_parameter_dynamic", "name": "k3", "stoichiometries": {"so1": -1.0}}, {"op": "make_parameter_dynamic", "name": "k3", "stoichiometries": {"ghost_rxn": 1.0}},
         {"op": "make_parameter_dynamic", "name": "k3", "stoichiometries": {"v1": 1.0, "ghost_rxn": 1.0}}, {"op": "make_parameter_dynamic", "name": "x"},
         {"op": "make_parameter_dynamic", "name": "kq"},
+        # values that are exactly zero are values
+        {"op": "make_variable_static", "name": "y", "value": 0.0}, {"op": "make_variable_static", "name": "x", "value": 0},
+        {"op": "make_parameter_dynamic", "name": "k3", "initial_value": 0.0}, {"op": "update_parameter", "name": "k1", "value": 0.0}, {"op": "update_parameter", "name": "k2", "value": 0},
+        {"op": "update_variable", "name": "x", "value": 0.0}, {"op": "scale_parameter", "name": "k1", "factor": 0.0}, {"op": "add_parameter", "name": "pz", "value": 0.0},
+        {"op": "add_variable", "name": "vz0", "value": 0.0}, {"op": "update_parameters", "items": [{"name": "k1", "value": 0.0}, {"name": "k2", "value": 0.7}]},
         # targets that share the surrogate's place in the name space without being one of its fluxes: the surrogate itself,
         # an output that drives no variable; alone and after a valid target (a refusal must leave nothing half-done)
         {"op": "make_parameter_dynamic", "name": "k3", "stoichiometries": {"sur": 1.0}}, {"op": "make_parameter_dynamic", "name": "k3", "stoichiometries": {"so2": -1.0}},
